@@ -43,6 +43,17 @@ class CallGraph:
                 seen.add(w)
                 todo.extend(inside.get(w, ()))
             return seen
+        # `a == b`, `a < b`, hashing and cloning of a value that *contains* a workspace type run that type's impl from inside the
+        # standard library's generic code (Option<&T>::ne -> <&T>::eq -> T::eq), where no call site of ours shows it.  A derived impl
+        # only compares fields; a hand-written one is code like any other, so it gets an edge from the comparison.
+        handwritten = {}
+        for im in P.impls:
+            tr = im.get("trait") or ""
+            if tr in ("std::cmp::PartialEq", "std::cmp::PartialOrd", "std::cmp::Ord", "std::hash::Hash", "std::clone::Clone", "std::ops::Drop",
+                      "std::default::Default") and not im.get("auto_derived"):
+                for m_, path_ in (im.get("methods") or {}).items():
+                    handwritten.setdefault((tr.rsplit("::", 1)[-1], re.sub(r"<.*$", "", im["self_ty"])), []).append(path_)
+        CMP_TRAITS = ("PartialEq", "PartialOrd", "Ord", "Hash", "Clone", "Default")
         FMT_TRAIT = {"debug": "Debug", "display": "Display", "lower_hex": "LowerHex", "upper_hex": "UpperHex", "octal": "Octal", "binary": "Binary",
                      "lower_exp": "LowerExp", "upper_exp": "UpperExp", "pointer": "Pointer"}
         for b in P.bodies.values():
@@ -59,6 +70,16 @@ class CallGraph:
                             for trait in (tr,):
                                 f = fmt_impl.get((trait, w))
                                 if f is not None and f != b.id:
+                                    outs.add(f)
+                                    self.sites.setdefault(f, []).append((b, bb, t))
+                if n is not None and handwritten and c.get("local") is not True:
+                    trn = next((x for x in CMP_TRAITS if ("::%s>::" % x) in n or ("::%s::" % x) in n or ("cmp::%s" % x) in n or ("hash::%s" % x) in n), None)
+                    if trn:
+                        tys = " ".join(str(g) for g in (c.get("gargs") or [])) + " " + n
+                        named = set(re.findall(r"[A-Za-z_][A-Za-z_0-9]*(?:::[A-Za-z_][A-Za-z_0-9]*)+", tys))
+                        for w in closure(named):
+                            for f in handwritten.get((trn, w), ()):
+                                if f != b.id and f != n:
                                     outs.add(f)
                                     self.sites.setdefault(f, []).append((b, bb, t))
                 if n is not None:
